@@ -428,11 +428,11 @@ class PC(StructureEstimator):
         while progress:  # as long as edges can be oriented (removed)
             num_edges = pdag.number_of_edges()
 
-            # 2) for each X->Z-Y, orient edges to Z->Y
+            # 2) for each X->Z-Y with X, Y non-adjacent, orient edges to Z->Y
             # (Explanation in Koller & Friedman PGM, page 88)
             for pair in node_pairs:
                 X, Y = pair
-                if not pdag.has_edge(X, Y):
+                if not skeleton.has_edge(X, Y):
                     for Z in (set(pdag.successors(X)) - set(pdag.predecessors(X))) & (
                         set(pdag.successors(Y)) & set(pdag.predecessors(Y))
                     ):
@@ -451,9 +451,11 @@ class PC(StructureEstimator):
                             pdag.remove_edge(Y, X)
                             break
 
-            # 4) for each X-Z-Y with X->W, Y->W, and Z-W, orient edges to Z->W
+            # 4) for each X-Z-Y with X->W, Y->W, Z-W, and X, Y non-adjacent, orient edges to Z->W
             for pair in node_pairs:
                 X, Y = pair
+                if skeleton.has_edge(X, Y):
+                    continue
                 for Z in (
                     set(pdag.successors(X))
                     & set(pdag.predecessors(X))
